@@ -260,10 +260,81 @@ func (e *memEnv) remove(p string) error {
 	}
 	return fs.ErrNotExist
 }
-func (e *memEnv) fsys() scalibrfs.FS { return e.m }
+func (e *memEnv) fsys() scalibrfs.FS { return safeFS{e.m} }
 func (e *memEnv) root() string       { return "" }
 func (e *memEnv) reset()             { e.m.Reset() }
 func (e *memEnv) close()             {}
+
+// safeFS gives the regular files of verif/memfs the offset semantics of *os.File: memfs accepts a negative
+// Seek result / ReadAt offset and then panics slicing its data, which the real file system never does
+// (it returns EINVAL). Without this layer such a harness panic would be booked on the extractor.
+type safeFS struct{ *memfs.FS }
+
+func (s safeFS) Open(name string) (fs.File, error) {
+	f, err := s.FS.Open(name)
+	if err != nil {
+		return nil, err
+	}
+	fi, err := f.Stat()
+	if err != nil || fi.IsDir() {
+		return f, nil
+	}
+	ra, ok := f.(io.ReaderAt)
+	if !ok {
+		return f, nil
+	}
+	return &safeFile{File: f, ra: ra, size: fi.Size(), name: name}, nil
+}
+
+type safeFile struct {
+	fs.File
+	ra   io.ReaderAt
+	size int64
+	off  int64
+	name string
+}
+
+func (f *safeFile) Read(b []byte) (int, error) {
+	if len(b) == 0 {
+		return 0, nil
+	}
+	if f.off >= f.size {
+		return 0, io.EOF
+	}
+	n, err := f.ra.ReadAt(b, f.off)
+	f.off += int64(n)
+	if n > 0 {
+		return n, nil
+	}
+	return n, err
+}
+func (f *safeFile) ReadAt(b []byte, off int64) (int, error) {
+	if off < 0 {
+		return 0, &fs.PathError{Op: "readat", Path: f.name, Err: errors.New("negative offset")}
+	}
+	if off >= f.size {
+		return 0, io.EOF
+	}
+	return f.ra.ReadAt(b, off)
+}
+func (f *safeFile) Seek(off int64, whence int) (int64, error) {
+	var n int64
+	switch whence {
+	case io.SeekStart:
+		n = off
+	case io.SeekCurrent:
+		n = f.off + off
+	case io.SeekEnd:
+		n = f.size + off
+	default:
+		return 0, &fs.PathError{Op: "seek", Path: f.name, Err: syscall.EINVAL}
+	}
+	if n < 0 {
+		return 0, &fs.PathError{Op: "seek", Path: f.name, Err: syscall.EINVAL}
+	}
+	f.off = n
+	return n, nil
+}
 
 type dirEnv struct{ dir string }
 
@@ -279,6 +350,7 @@ func (e *dirEnv) put(p string, data []byte, perm fs.FileMode) error {
 		perm = 0o644
 	}
 	full := filepath.Join(e.dir, filepath.FromSlash(p))
+	_ = os.Remove(full) // fresh inode every time: locks leaked by an earlier call must not follow the path
 	f, err := os.OpenFile(full, os.O_WRONLY|os.O_CREATE|os.O_TRUNC, perm)
 	if err != nil {
 		if err2 := os.MkdirAll(filepath.Dir(full), 0o755); err2 != nil {
@@ -649,7 +721,8 @@ func runExtractUnit(u unit) error {
 				What: fmt.Sprintf("%s Extract(%s) panicked: %s [seed %s, %s, content %s]", u.Ex, sc.c.Path, res.pval, u.Seed, d, preview(data))})
 			exerc++
 			hashes = append(hashes, h)
-			ex = newExtractor(u.Ex) // do not trust the instance after a panic
+			// do not trust the process after a panic (bolt.Open leaks its flock and mapping, ...): start afresh
+			recycleAt = seq + 1
 		case res.err != nil:
 			exerc++
 			hashes = append(hashes, h)
@@ -661,9 +734,8 @@ func runExtractUnit(u unit) error {
 			exerc++
 			hashes = append(hashes, h)
 		}
-		if res.alloc > 2<<30 && res.alloc > 4096*uint64(len(data)+1) {
-			send(msg{T: "viol", Key: u.Ex + ":alloc", Seq: seq,
-				What: fmt.Sprintf("%s Extract(%s) allocated %d bytes for a %d-byte file [seed %s, %s]", u.Ex, sc.c.Path, res.alloc, len(data), u.Seed, d)})
+		if res.dt > 5*time.Second {
+			send(msg{T: "slow", Seq: seq, SlowMs: res.dt.Milliseconds(), Alloc: res.alloc, What: d.String()})
 		}
 		if len(hashes) >= 2048 {
 			sendHashes(hashes)
@@ -672,9 +744,8 @@ func runExtractUnit(u unit) error {
 		// a call that took this long may have left goroutines spinning (os/rpm's timeout): start afresh
 		if res.dt > 10*time.Second || (evals&63 == 0 && vmSizeBytes() > 4<<30) {
 			recycleAt = seq + 1
-			return false
 		}
-		return true
+		return recycleAt < 0
 	}
 	total := 0
 	if u.Data != nil {
@@ -711,9 +782,15 @@ type scanView struct {
 
 func (sc *scene) scan(bad, healthy filesystem.Extractor) (v scanView, pval any, stack string) {
 	capab := &plugin.Capabilities{OS: plugin.OSLinux, Network: plugin.NetworkOffline, DirectFS: sc.e.root() != ""}
-	if o := bad.Requirements().OS; o != plugin.OSAny && o != plugin.OSUnix {
-		capab.OS = o
+	rq := bad.Requirements()
+	if rq.OS != plugin.OSAny && rq.OS != plugin.OSUnix {
+		capab.OS = rq.OS
 	}
+	if rq.Network == plugin.NetworkOnline {
+		capab.Network = plugin.NetworkOnline
+	}
+	capab.RunningSystem = rq.RunningSystem
+	capab.DirectFS = capab.DirectFS || rq.DirectFS
 	cfg := &scalibr.ScanConfig{
 		FilesystemExtractors: []filesystem.Extractor{bad, healthy},
 		Capabilities:         capab,
@@ -806,8 +883,8 @@ func runContainUnit(u unit) error {
 	}
 	sc.e.reset()
 	without, pval2, _ := sc.scan(newExtractor(u.Ex), newExtractor(hName))
-	if pval2 != nil || !without.completed {
-		return harnessErr{"contain: reference scan without the bad file did not complete"}
+	if pval2 != nil || !without.completed || without.overall != "SUCCEEDED" || !strings.HasPrefix(without.healthy, "status=SUCCEEDED packages=[") || strings.HasSuffix(without.healthy, "packages=[]") {
+		return harnessErr{fmt.Sprintf("contain: reference scan without the bad file is not healthy: overall=%s %s", without.overall, without.healthy)}
 	}
 	obs := fmt.Sprintf("with bad file: completed=%v overall=%s healthy{%s} bad-status=%d; without: healthy{%s}", with.completed, with.overall, with.healthy, with.badStatus, without.healthy)
 	switch {
